@@ -58,6 +58,12 @@ def gen_cases(ctx):
     out = [("corpus", S.corpus_expr(l)) for l in S.load_corpus("C03")]
     q = ctx.tier == "quick"
     out += abnf_cases(ctx, 4000 if q else 300000)
+    # sentences by construction, nested 50 .. 900 deep (below the depth at which the known finding F12 — stack exhaustion — starts)
+    for depth in [50, 200, 255, 256, 257, 300, 600, 900]:
+        for mk in (lambda n: "(" * n + "a" + ")" * n, lambda n: "[" * n + "a" + "]" * n, lambda n: "!" * n + "a",
+                   lambda n: "to_array(" * n + "a" + ")" * n, lambda n: "{k:" * n + "a" + "}" * n, lambda n: "a" + "[?" * n + "b" + "]" * n,
+                   lambda n: "a" + ".b[*]" * n, lambda n: "a" + " || (b" * n + ")" * n, lambda n: "a" + "[0]" * n + ".b" * n):
+            out.append(("deep-sentence", mk(depth)))
     out += S.expr_cases(ctx, 3000 if q else 300000, 3000 if q else 300000, 1500 if q else 150000,
                         1500 if q else 150000, 1000 if q else 100000)
     if not q:
@@ -100,6 +106,10 @@ def run(ctx):
             if not sent and r.impl_ok and not (r.model_ok and any(r.dev[ix] > 0 for ix in KNOWN_CLASSES.values())):
                 ctx.violation("parse", r.expr, r.impl[:300], "parse error: not a sentence of the published ABNF (and not one of the listed deviation classes)")
                 continue
+        if r.kind == "deep-sentence" and not r.impl_ok:
+            ctx.violation("parse", r.expr[:80] + ("…(%d chars)" % len(r.expr) if len(r.expr) > 80 else ""), r.impl[:200],
+                          "compiles: a sentence of the grammar however deeply it nests (below the stack limit of known finding F12)")
+            continue
         devs = [name for name, ix in KNOWN_CLASSES.items() if r.model_ok and r.dev[ix] > 0]
         if devs:
             # a non-sentence of the published grammar which the model of the code accepts
